@@ -104,6 +104,15 @@ class Tr:
 
     # ---- expressions
     def expr(self, n):
+        """expression in a VALUE context -> Gallina of the numeric sort (Z or N).  A C expression whose
+        value is a truth value (comparison, !, &&, ||) is converted with b2z = `if b then 1 else 0`;
+        every local initialised or assigned from it is therefore bound as a number, and its later use in
+        a condition goes back through z2b = `negb (v =? 0)` (see cond)."""
+        if self.is_boolean(n):
+            return "(if %s then 1 else 0)" % self.cond(n)
+        return self.value(n)
+
+    def value(self, n):
         k = n.get("kind")
         inner = n.get("inner", [])
         if k in ("ParenExpr", "ConstantExpr"):
@@ -395,7 +404,7 @@ class Tr:
             k = n.get("kind")
             if k in ("ParenExpr", "ImplicitCastExpr"):
                 return self.cond(n["inner"][0])
-            return self.expr(n)
+            return self.value(n)
         return "(negb (%s =? 0))" % self.expr(n)
 
     # ---- statements (continuation style)
